@@ -15,6 +15,27 @@ CLAIMS = {
         note=NOTE_BASE,
         technique="static analysis: who-may-call + dataflow rules over type-checked MIR (custom rustc_private driver)",
     ),
+    "C16": dict(
+        category="other",
+        text="Static must-pass-through analysis of the CFG (release and dev MIR, constant-false debug_assert branches pruned): every "
+             "entry→return path of partition_mut, get_from_sorted_mut, get_many_from_sorted_mut, Edges::index, Bins::index and Grid::index "
+             "passes an operation that diverges unless position < length; a violating path is reported block by block. Decides the "
+             "rejection direction for every input, pivot sequence and build profile; the converse (in-range calls never panic) is decided "
+             "only for the leaf functions covered by the zone analysis (see C15).",
+        design_ref="DESIGN.md §4 C16",
+        note=NOTE_BASE,
+        technique="static analysis: must-pass-through (path) rule over release/dev MIR CFGs with delegation summaries",
+    ),
+    "C17": dict(
+        category="other",
+        text="Static decision-table conformance: the ordered error exits (guard class, subjects, variant, payload provenance) of all 49 "
+             "fallible routines are extracted from MIR (helpers inlined, `?`/From applied symbolically) and compared with the table "
+             "transcribed from the property; panics preceding documented error exits are reported. Guards are pure functions of shapes "
+             "and q, so a matched row holds for all inputs. One known finding (cov on 0xk input, pinned by a test).",
+        design_ref="DESIGN.md §4 C17",
+        note=NOTE_BASE,
+        technique="static analysis: guard-sequence extraction from MIR + decision table",
+    ),
 }
 
 PENDING = "not yet claimed in this revision: the static rule set for it is still being implemented (see DESIGN.md §8); no check is registered rather than a weak one"
